@@ -234,7 +234,7 @@ def objStr (scopes : List ScopeInfo) (td : Bool) : ObjSubs â†’ Bool â†’ String Ã
         ((if comma then "," else "") ++ k ++ ":" ++ t.1 ++ rr.1, rr.2.1, rr.2.2)
       | none =>
         let rr := objStr scopes td r false
-        ("},X(" ++ t.1 ++ "),{" ++ rr.1, "(" ++ t.1 ++ ")===true||" ++ rr.2.1, true)
+        ("},Q.c(" ++ t.1 ++ "),{" ++ rr.1, "(" ++ t.1 ++ ")===true||" ++ rr.2.1, true)
     else objStr scopes td r comma
 def arrSpreadStr (scopes : List ScopeInfo) (td : Bool) : ArrSubs â†’ String
   | .nil => ""
